@@ -7,5 +7,5 @@ import "github.com/panjf2000/gnet/v2/pkg/netpoll"
 const variant = "default"
 
 func polling(p *netpoll.Poller) error {
-	return p.Polling(func(fd int, ev netpoll.IOEvent, fl netpoll.IOFlags) error { return nil })
+	return p.Polling(ioCallback)
 }
